@@ -190,8 +190,41 @@ def check_continued(kind, seed=0):
     return f
 
 
+def check_numpy_sizes(kind, seed=0):
+    """Batch sizes, k and the number of epochs given as numpy integers (what a parameter sweep over np.arange hands over):
+    same batches as with Python ints."""
+    rng = np.random.default_rng(seed)
+    st = C.make_state(kind, 2, 2, 1)
+    N = 7
+    data = torch.tensor(rng.integers(0, 2, size=(N, 2)), dtype=torch.double)
+    data[:, 0] = torch.arange(N, dtype=torch.double) % 2
+    bases = np.array([list("ZZ"), list("XZ"), list("ZZ"), list("ZY"), list("ZZ"), list("ZZ"), list("YX")])
+    kw = {} if kind == "positive" else {"input_bases": bases}
+    f = []
+    for tname, conv in (("numpy.int64", np.int64), ("numpy.int32", np.int32), ("python int", int)):
+        seen = []
+        real = st.compute_batch_gradients
+
+        def spy(k, samples_batch, neg_batch, bases_batch=None, real=real):
+            seen.append((samples_batch.shape[0], neg_batch.shape[0]))
+            return real(k, samples_batch, neg_batch, bases_batch=bases_batch) if bases_batch is not None else real(k, samples_batch, neg_batch)
+        st.compute_batch_gradients = spy
+        try:
+            st.fit(data, epochs=conv(2), pos_batch_size=conv(3), neg_batch_size=conv(2), k=conv(1), lr=0.01, **kw)
+        finally:
+            del st.__dict__["compute_batch_gradients"]
+        if seen != [(3, 2), (3, 2), (1, 2)] * 2:
+            f.append("sizes given as %s: (positive, negative) batch sizes were %s, expected [(3, 2), (3, 2), (1, 2)] per epoch" % (tname, seen))
+    return f
+
+
 def native_check(quick=True):
     fails, n = [], 0
+    for kind in ("positive", "complex"):
+        f = check_numpy_sizes(kind)
+        n += 1
+        if f:
+            fails.append(({"kind": kind, "sizes as numpy integers": True}, f[:2]))
     for kind in ("positive", "complex"):
         f = check_continued(kind)
         n += 1
